@@ -8,7 +8,8 @@
   * `unsigned pos` and `uint32_t` arithmetic wrap modulo 2^32 explicitly (`u32`, `usub`).
   * Loops run on fuel; exhaustion (`none`) means the real loop does not stop within
     `fuel` rounds.  `Ring.fuel` (total size + 2) is enough whenever `pos` does not wrap.
-  * Mirrors the code after fixes C07-blob-len, C07-bundle-len, C07-empty-string-size.
+  * Mirrors the code after fixes C07-blob-len, C07-bundle-len, C07-empty-string-size,
+    C06-bundle-length-wrap.
 -/
 import RtoscModel.Osc.Read
 namespace Rtosc.Osc
@@ -84,14 +85,16 @@ def lenLoop (r : Ring) (aligned : Nat) : Nat → Bytes → Nat → Option Nat
 
 /-- the `do … while(advance)` loop of `bundle_ring_length` and its final
     `return pos <= total ? pos : 0` (after fix C07-bundle-len: 0 as soon as `pos` has left the
-    ring or an element does not fit into the remaining bytes) -/
+    ring or an element does not fit into the remaining bytes; after fix C06-bundle-length-wrap:
+    0 as well when the end of the element, `(uint64_t)pos+4+advance`, is no `unsigned` position,
+    so that `pos += 4+advance` never wraps and `pos` strictly increases) -/
 def bundleLoop (r : Ring) : Nat → Nat → Option Nat
   | 0, _ => none
   | f + 1, pos =>
     if pos > r.total then some 0
     else
       let advance := (r.rd32 pos).toNat
-      if advance > r.total - pos then some 0
+      if advance > r.total - pos ∨ (advance ≠ 0 ∧ pos + 4 + advance > 4294967295) then some 0
       else if advance ≠ 0 then bundleLoop r f (u32 (pos + u32 (4 + advance)))
       else some (if pos ≤ r.total then pos else 0)
 
